@@ -86,5 +86,4 @@ PROP = {
         "params:status_200", "params:status_400",
         "stored_line:dnsrewrite_payload", "stored_line:several_rules",
     ]},
-    "claimed": False,
 }
